@@ -675,6 +675,56 @@ def _eval_metropolis(case):
                                            'last_step': {'qubit': st.get('q'), 'proposal': st.get('pauli'),
                                                          'offered': st.get('opts'),
                                                          'acceptance_probability_used': st.get('acc')}})
+            # ---- two-step chains: the array object a step returns is fed to the next step, possibly at
+            # another error rate (what SplittingSimulation._run does with its per-rate chains, all of which
+            # start from the same initial array); every step must use the true ratio at ITS rate
+            ex.setdefault('chain_steps', 0)
+            chain_prevs = [tuple([0] * n)] + [tuple([0] * i + [t] + [0] * (n - i - 1))
+                                               for i in range(min(n, 2)) for t in (1, 3)]
+            for pa in case['ps']:
+                for pb in case['ps']:
+                    cha = _channel(perms, r, pa)
+                    chb = _channel(perms, r, pb)
+                    for prev in chain_prevs:
+                        if _ref_prob(cha, prev) <= 0.0 or _ref_prob(chb, prev) <= 0.0:
+                            continue
+                        for q1, s1, q2, s2 in ((0, 1, n - 1, 3), (n - 1, 2, 0, 1), (0, 3, 0, 3)):
+                            arr = _vec(prev, n)
+                            st.clear()
+                            st.update(q=q1, pauli=PAULI[s1], b=0)
+                            try:
+                                with np.errstate(divide='ignore', invalid='ignore'):
+                                    nxt, logp1 = sim.get_next_error(stub, pa, arr)
+                                cur = _sig_of(nxt, n)
+                                st.clear()
+                                st.update(q=q2, pauli=PAULI[s2], b=0)
+                                with np.errstate(divide='ignore', invalid='ignore'):
+                                    nxt2, logp2 = sim.get_next_error(stub, pb, nxt)
+                            except _Unavailable:
+                                continue
+                            res['evals'] += 2
+                            ex['chain_steps'] += 2
+                            p_cur = _ref_prob(chb, cur)
+                            new = list(cur)
+                            new[q2] = MUL[cur[q2]][s2]
+                            p_new = _ref_prob(chb, tuple(new))
+                            if p_cur <= 0:
+                                continue
+                            want = min(1.0, p_new / p_cur)
+                            got = st.get('acc', float('nan'))
+                            det = {'previous': _pstr(prev), 'first_step': {'rate': pa, 'qubit': q1, 'proposal': PAULI[s1]},
+                                   'second_step': {'rate': pb, 'qubit': q2, 'proposal': PAULI[s2]},
+                                   'direction': list(r), 'p': pb}
+                            if pa != pb:
+                                res['nontrivial'] += 1
+                            if not abs(got - want) <= TOL_ACC:
+                                rec.add('acceptance-ratio-differs', True, ryp,
+                                        dict(det, chain=True, acceptance_probability_used=got,
+                                             reference_min_1_ratio=want))
+                            if _sig_of(nxt2, n) == cur and not _log_ok(float(logp2), p_cur):
+                                rec.add('log-differs', True, ryp,
+                                        dict(det, chain=True, returned_log_probability=repr(float(logp2)),
+                                             reference_log=repr(math.log(p_cur))))
     finally:
         npr.choice = saved
     ex.update(rec.counts)
